@@ -14,6 +14,11 @@ import (
 // goroutines for back-to-back datagrams from two sources, under the race detector.
 
 func c10SchedExec(seq []string, prefix []int) SchedResult {
+	// scenario "2L" + sequence: two listens entries, odd positions arrive on the second UDP listener
+	two := len(seq) > 0 && seq[0] == "2L"
+	if two {
+		seq = seq[1:]
+	}
 	// the alone references first: worlds must not be nested
 	refs := make([][]string, len(seq))
 	for i, sh := range seq {
@@ -21,9 +26,13 @@ func c10SchedExec(seq []string, prefix []int) SchedResult {
 		if i%2 == 1 {
 			src = "127.0.0.8:5060"
 		}
-		refs[i] = c10AloneRef(sh, i, src)
+		refs[i] = c10AloneRefAt(sh, i, src, two)
 	}
-	w := StartRelayWorld(SimOpts{}, c10Cfg)
+	cfg := c10Cfg
+	if two {
+		cfg = c10Cfg2
+	}
+	w := StartRelayWorld(SimOpts{}, cfg)
 	defer w.Close()
 	w.Observe()
 	w.S.W.SetExplore(vrt.KSched|vrt.KSelect, prefix)
@@ -32,7 +41,7 @@ func c10SchedExec(seq []string, prefix []int) SchedResult {
 		if i%2 == 1 {
 			src = "127.0.0.8:5060"
 		}
-		w.udp[src].Send("127.0.0.1:5060", c10Datagram(sh, i))
+		w.udp[src].Send(c10Lst(two, i), c10Datagram(sh, i))
 	}
 	w.S.Run()
 	res := SchedResult{Trace: w.S.W.TraceCopy()}
@@ -80,6 +89,13 @@ func c10RaceRun(c *Ctx) {
 		for _, b := range shapes {
 			seqs = append(seqs, []string{a, b})
 		}
+	}
+	// two UDP listeners of one process receiving at the same time
+	for _, pr := range [][]string{{"body", "body"}, {"small", "overdeclared"}, {"large", "body"}, {"cut-body", "small"}} {
+		seqs = append(seqs, append([]string{"2L"}, pr...))
+	}
+	if c.Thorough() {
+		seqs = append(seqs, []string{"2L", "body", "small", "body"}, []string{"2L", "overdeclared", "body", "cut-body", "small"})
 	}
 	if c.Thorough() {
 		for _, a := range []string{"body", "cut-body", "large"} {
